@@ -165,6 +165,8 @@ def ite(c, a, b):
         return b
     if a is b:
         return a
+    if c.op == "not":
+        return ite(c.args[0], b, a)
     if a.isbool:
         return or_(and_(c, a), and_(not_(c), b))
     return _mk("ite", (c, a, b), min(a.lo, b.lo), max(a.hi, b.hi))
@@ -302,7 +304,8 @@ def select_const_array(name, values, idx, bits):
 
 def ceil_div(a, b):
     """Mathematical ceil(a/b) for a >= 0, b > 0 written with div/rem (shares nodes with the code's)."""
-    return add(div(a, b), ite(eq(rem(a, b), const(0)), const(0), const(1)))
+    d = div(a, b)
+    return ite(eq(rem(a, b), const(0)), d, add(d, const(1)))
 
 
 # ------------------------------------------------------------------------------------------------
